@@ -240,6 +240,10 @@ def run_property(prop, tier, seed):
         print(f'CHECKER-ERROR {o.id}: {o.raw}')
     for r in out_of_reach:
         print(f'OUT-OF-REACH {r["function"]}: {r["reason"]}')
+    if os.environ.get('PYVC_LIST'):
+        with open(os.environ['PYVC_LIST'], 'w') as fh:
+            for o in obls:
+                fh.write(f'{status(o)}\t{o.kind}\t{o.id}\n')
     known_set = {id(o) for o, _ in known}
     n = len([o for o in obls if id(o) not in known_set])   # obligations under a recorded open finding are reported separately
     disch = sum(1 for o in obls if status(o) == 'discharged')
